@@ -46,6 +46,10 @@ pub trait Scalar: MomTropFloat + Copy + 'static {
     }
     /// rank of each value in removal order: creation order of the terms (Sym) / decreasing value (f64)
     fn removal_order(vals: &[Self]) -> Vec<usize>;
+    /// symbolic run: the two sides of every comparison decided so far
+    fn atom_sides() -> Vec<(Self, Self)> {
+        vec![]
+    }
     /// symbolic run: for every branch decision so far, the variables its atom depends on
     fn atom_vars() -> Vec<Vec<String>> {
         vec![]
@@ -115,6 +119,9 @@ impl Scalar for Sym {
     }
     fn from_f64_consts() -> Vec<u64> {
         sym::CTX.with(|c| c.borrow().from_f64_consts.clone())
+    }
+    fn atom_sides() -> Vec<(Self, Self)> {
+        sym::CTX.with(|c| c.borrow().taken.iter().map(|(a, _)| { let [l, r] = a.nodes(); (Sym(l), Sym(r)) }).collect())
     }
     fn atom_vars() -> Vec<Vec<String>> {
         sym::CTX.with(|c| {
